@@ -35,7 +35,7 @@ CLAIMED.update({
         text='Bounded model checking of eval_condition_for_slice / is_true / the not command MIR against an and-of-ors stack specification: every well-formed '
              'token sequence (symbolic token kinds, symbolic atoms) within the bound evaluates to the specified value; truthiness table on arbitrary values; '
              'if/elseif/while are checked to call the same evaluator (structural check on the current MIR).',
-        note='Bounds: quick <= 8 tokens depth <= 3 atoms <= 5 chars; thorough <= 11 tokens (13 with short atoms, depth 4). Atom alphabet ASCII + 3 case-less '
+        note='Bounds: quick <= 8 tokens depth <= 3 atoms <= 5 chars; thorough <= 10 tokens (11 with short atoms). Atom alphabet ASCII + 3 case-less '
              'non-ASCII representatives (to_lowercase model). ' + TRUST,
         ref='4/C06'),
 })
@@ -101,14 +101,27 @@ CLAIMED.update({
 })
 
 CLAIMED.update({
+    'C05': dict(
+        text='Whole runs of generated programs with 1-2 function definitions (scoped or not, optionally self-recursive), calls as statements and with output '
+             'variables, returns at any depth inside if / for-in, repeated calls after early returns, through the real runner and the real function / return / end / '
+             'scope push-pop / flow-control commands (registry built by executing flowcontrol::load), against a reference interpreter with real call frames: the trace of '
+             'executed commands with their argument values and the final caller variables are equal. Control flow is concretised: every assignment of the condition '
+             'variables and the array length of each program is executed; the array items are symbolic and decided by the solver.',
+        note='Programs: quick 60, thorough 400 (seeded). Open known finding forin-left-by-return (programs with a return inside a for-in are excluded from the main '
+             'query and re-confirmed). Left open as in the property: positional variables after unscoped calls; scoped call without value into an already defined '
+             'output variable. Calls in condition position not generated. The control dimension is enumerated, only the data dimension is solver-decided. ' + TRUST,
+        ref='4/C05'),
     'C04': dict(
         text='Layer 1, bounded model checking of the block-boundary discovery (utils::instruction_query::find_commands and create_if/while/forin_meta_info_for_line) '
              'on fully symbolic program structure: an opener followed by symbolic lines, each a symbolic choice among every alias and full-name spelling of every block '
              'keyword (spellings obtained by executing the real name()/aliases()), well-nestedness assumed by a symbolic stack recogniser; the discovered end and the '
-             'elseif/else lines equal the stack specification.',
-        note='Bounds: quick opener + 8 lines, nesting <= 3; thorough opener + 11 lines. The whole-run layer (branch selection, iteration, per-construct call stacks, '
-             'resumption after end) is NOT built: the claim is the structural half of the property only. ' + TRUST,
-        ref='4/C04 (L1)'),
+             'elseif/else lines equal the stack specification. Layer 2, whole runs of generated well-nested programs (if/elseif/else with value and command conditions, '
+             'while, for-in, emit, set; every keyword spelled with a real alias or full name) through the real runner and flow-control commands against a tree-walking '
+             'interpreter: equal trace of executed commands with argument values and equal final variables; control flow concretised (every assignment of the condition '
+             'variables and array length per program), array items symbolic.',
+        note='Bounds: L1 quick opener + 8 lines, nesting <= 3; thorough opener + 11 lines. L2 quick 72 programs, thorough 480 (seeded), while loops <= 2 iterations, '
+             'arrays <= 2 items. In L2 only the data dimension is solver-decided; the program and control dimensions are generated / enumerated. ' + TRUST,
+        ref='4/C04'),
     'C07': dict(
         text='Every panic site (MIR assert terminators, unwrap/expect, slicing, diverging calls) and every loop / recursion bound of the encoded functions is a discharged '
              'obligation: 64 command run functions with arbitrary argument vectors (0..3 arguments), the parser on arbitrary text, the 21 collection commands on symbolic handle '
@@ -137,6 +150,25 @@ CLAIMED.update({
         ref='4/C14'),
 })
 
+CLAIMED.update({
+    'C19': dict(
+        text='Bounded model checking of the wrapper mechanism of script-implemented commands (types::command::AliasCommand::run, types::scope::clear / '
+             'set_line_context_name, put_handle / get_handles_sub_state) with the script body replaced by a havoc stub constrained by the wrapper contract (it may '
+             'add, change or remove any variable under the scope prefix and return any result): after run, for every result kind, the caller variables are exactly '
+             'as before, no scope::<cmd>:: variable and no published argument remains, and the handle table is exactly as before (temporary argument array released).',
+        note='Reduced scope: that each of the 21 real script.ds bodies keeps its working variables under its prefix and releases what it creates is NOT checked '
+             '(property of script texts whose commands are backed by third-party crates). 0..3 arguments, 3 caller variables incl. near-miss prefixes, 0..2 handles. ' + TRUST,
+        ref='4/C19'),
+    'C20': dict(
+        text='Bounded model checking of the CLI MIR (main, run_cli, run_script, linter::lint_file / lint_instructions / lint_instruction / is_lower_case) with the '
+             'library calls stubbed by symbolic outcomes (any ScriptError kind, runtime messages incl. exit codes) and exit/println logged: OS exit status (low 8 bits) '
+             'non-zero with an Error: line exactly when the library failed; -e/--eval pass text, otherwise file; -l/--lint only parses; lint accepts exactly when the '
+             'file parses and every label, command and output is unchanged by lower-casing.',
+        note='Reduced scope: the process boundary (real exit status / stdout of the built binary and agreement with a real library run) is exercised only by the native '
+             'replay of counterexamples against the real duck binary. argv <= 2 arguments; lint <= 2/3 instructions, names <= 3/5 chars, ASCII + 2 case-less chars. ' + TRUST,
+        ref='4/C20'),
+})
+
 NOT_APPLICABLE = {
     'C17': 'round-trips live in third-party crates (base64, serde_json, java-properties, std fmt/from_str_radix) that are not in the encoded MIR; '
            'modelling them by specification would make decode(encode(x))=x true by construction (DESIGN.md section 5)',
@@ -144,7 +176,7 @@ NOT_APPLICABLE = {
            'checked against itself (DESIGN.md section 5)',
 }
 
-PENDING_REASON = 'check not built yet in this revision (solver-based harness designed in DESIGN.md section 4); not claimed until it runs'
+PENDING_REASON = 'whole-run check over enumerated program skeletons (DESIGN.md section 4, C04-L2/C05) not built in this revision; not claimed'
 
 
 def main():
